@@ -81,8 +81,75 @@ HeaderBytes(ver, bodylen) ==
 StreamOfBody(ver, body) == HeaderBytes(ver, Len(body)) \o body
 Stream(m) == StreamOfBody(CurrentVersionChars, SlimMsg(m))
 
+\* ---- the reader's side: parsing a body back into the stored form -------------------
+\* a varint at position p (1-based): <<one-positions of the value, next position>>;
+\* next position 0 = the bytes end inside the varint
+RECURSIVE RdVar(_, _, _, _)
+RdVar(bs, p, shift, acc) ==
+  IF p > Len(bs) THEN <<{}, 0>>
+  ELSE LET b    == bs[p]
+           acc2 == acc \cup {shift + k : k \in {j \in 0..6 : (b \div Pow2(j)) % 2 = 1}}
+       IN IF b >= 128 THEN RdVar(bs, p + 1, shift + 7, acc2) ELSE <<acc2, p + 1>>
+NumOf(S) == FoldSet(LAMBDA b, a : a + Pow2(b), 0, S)          \* for values below 2^31
+
+BadField == [f |-> -1, wt |-> -1, n |-> 0, bytes |-> <<>>]
+\* the fields of a message, in stream order: [f, wt, n (varint value), bytes (payload)]
+RECURSIVE Fields(_, _)
+Fields(bs, p) ==
+  IF p > Len(bs) THEN <<>>
+  ELSE LET t == RdVar(bs, p, 0, {}) IN
+       IF t[2] = 0 THEN <<BadField>>
+       ELSE LET tag == NumOf(t[1])  f == tag \div 8  wt == tag % 8
+                v   == RdVar(bs, t[2], 0, {}) IN
+            IF v[2] = 0 \/ wt \notin {0, 2} THEN <<BadField>>
+            ELSE IF wt = 0 THEN <<[f |-> f, wt |-> 0, n |-> NumOf(v[1]), bytes |-> <<>>]>> \o Fields(bs, v[2])
+            ELSE LET n == NumOf(v[1]) IN
+                 IF v[2] + n - 1 > Len(bs) THEN <<BadField>>
+                 ELSE <<[f |-> f, wt |-> 2, n |-> n, bytes |-> SubSeq(bs, v[2], v[2] + n - 1)]>> \o Fields(bs, v[2] + n)
+
+WellFormed(fs) == \A i \in 1..Len(fs) : fs[i].f # -1
+HasF(fs, f)  == \E i \in 1..Len(fs) : fs[i].f = f
+FieldOf(fs, f) == fs[CHOOSE i \in 1..Len(fs) : fs[i].f = f]
+IntF(fs, f)  == IF HasF(fs, f) THEN FieldOf(fs, f).n ELSE 0
+BytesF(fs, f) == IF HasF(fs, f) THEN FieldOf(fs, f).bytes ELSE <<>>
+
+\* packed varints, each as the set of its one-positions
+RECURSIVE Unpack(_, _)
+Unpack(bs, p) == IF p > Len(bs) THEN <<>> ELSE LET v == RdVar(bs, p, 0, {}) IN <<v[1]>> \o Unpack(bs, v[2])
+UnpackN(bs) == LET u == Unpack(bs, 1) IN [i \in 1..Len(u) |-> NumOf(u[i])]
+
+ParseBitmap(bs) ==
+  LET fs == Fields(bs, 1)
+      ws == Unpack(BytesF(fs, 20), 1) IN
+  [bits |-> UNION {{64 * (w - 1) + b : b \in ws[w]} : w \in 1..Len(ws)},
+   nwords |-> Len(ws), rank |-> UnpackN(BytesF(fs, 30)), sel |-> UnpackN(BytesF(fs, 40))]
+ParseOptBM(fs, f) == IF HasF(fs, f) THEN ParseBitmap(BytesF(fs, f)) ELSE NilBM
+
+\* the stored form as SlimEncode describes it, read back from a body
+ParseSlimMsg(body) ==
+  LET fs  == Fields(body, 1)
+      ipf == Fields(BytesF(fs, 38), 1)
+      lpf == Fields(BytesF(fs, 58), 1)
+      lvf == Fields(BytesF(fs, 60), 1) IN
+  [bigcnt |-> IntF(fs, 11), shortsize |-> IntF(fs, 14), shorttable |-> UnpackN(BytesF(fs, 32)),
+   nodetype |-> ParseOptBM(fs, 20), inners |-> ParseOptBM(fs, 30), shortbm |-> ParseOptBM(fs, 31),
+   ip |-> [eltcnt |-> IntF(ipf, 11), presence |-> ParseOptBM(ipf, 61), fixed |-> IntF(ipf, 23),
+           position |-> ParseOptBM(ipf, 20), bytes |-> BytesF(ipf, 30)],
+   lp |-> IF ~HasF(fs, 58) THEN [present |-> FALSE]
+          ELSE [present |-> TRUE, presence |-> ParseOptBM(lpf, 61), position |-> ParseOptBM(lpf, 20), bytes |-> BytesF(lpf, 30)],
+   leaves |-> IF ~HasF(fs, 60) THEN [present |-> FALSE]
+              ELSE [present |-> TRUE, n |-> IntF(lvf, 10), eltcnt |-> IntF(lvf, 11), presence |-> ParseOptBM(lvf, 61),
+                    fixed |-> IntF(lvf, 23), position |-> ParseOptBM(lvf, 20), bytes |-> BytesF(lvf, 30)]]
+
 \* the fields the loader reads from the first 32 bytes
 HeaderVersion(bs) == LET v == SubSeq(bs, 1, 16) p == SelectInSeq(v, LAMBDA c : c = 0) IN
                      IF p = 0 THEN v ELSE SubSeq(v, 1, p - 1)
 HeaderBodyLen(bs) == bs[25] + 256 * bs[26] + 65536 * bs[27] + 16777216 * bs[28]
+
+\* pbcmpl.Unmarshal of the bytes bs: "short" when the header or the announced body is
+\* not all there; otherwise the body it hands to the protobuf parser
+ReadSection(bs) ==
+  IF Len(bs) < HeaderLen THEN [err |-> "short", body |-> <<>>]
+  ELSE IF Len(bs) - HeaderLen < HeaderBodyLen(bs) THEN [err |-> "short", body |-> <<>>]
+  ELSE [err |-> "", body |-> SubSeq(bs, HeaderLen + 1, HeaderLen + HeaderBodyLen(bs))]
 =============================================================================
